@@ -203,7 +203,7 @@ var props = map[string]propSpec{
 		Assume: []string{"a cache is released only when no lookup on it is in flight (seq-db releases under the fraction's write lock, lookups hold its read lock)", "the cleaner methods are called from one task, as CacheMaintainer does"},
 		Real:   []string{"cache.Cache", "cache.Cleaner"}, Stub: []string{"loaders are harness code", "goroutine scheduling = verifsim seeded scheduler"},
 		Variants: []string{"tiny"}},
-	"C19": withVariants(storeProp("fault_enumeration", 45, 600, "one case = 2-5 fractions (active+sealed), 1-3 asynchronous searches (query+histogram+aggregations), planned crash at the k-th rename of *.qpr / *.info, write to *.tmp or any mutating op, power loss/kill/stop, restart; the request must be known, finish within one simulated hour and equal the synchronous search and the model; request ids are random version-4 UUIDs; in 30% of the cases group-by values look like the key syntax of persisted partial results (\"200|/api\", \"12|\", \"0|alpha\"); in 40% ingestion goes on right after the searches were started (rotation, bulks into a fraction created after the start): a listed document submitted after the start must live in a fraction that existed at the start; second lane (every 3rd chunk): the proxy's StartAsyncSearch/FetchAsyncSearchResult fan-out over 1-3 shards x 1-2 replicas of real stores on simnet, stores killed / losing power / partitioned and restarted while the searches run and are polled: a response that says done without error must equal the model, and once every store is back the search must become done within one simulated hour; build variant tiny of the on-disk block constants in a third of the runs (token tables and every other index structure span many blocks)"+ntRule), "tiny", "lane:storesim:cluster-c19:3"),
+	"C19": withVariants(storeProp("fault_enumeration", 45, 600, "one case = 2-5 fractions (active+sealed), 1-3 asynchronous searches (query+histogram+aggregations), planned crash at the k-th rename of *.qpr / *.info, write to *.tmp or any mutating op, power loss/kill/stop, restart; the request must be known, finish within one simulated hour and equal the synchronous search and the model; every sixth seed runs the sub-profile c19-retention instead (size limit, one search worker, 2-4 queued searches, step cost, a writer that goes on so that listed fractions are retired before the search reaches them: the request stays known, ends, lists only submitted matching documents once each in order, the process lives); request ids are random version-4 UUIDs; in 30% of the cases group-by values look like the key syntax of persisted partial results (\"200|/api\", \"12|\", \"0|alpha\"); in 40% ingestion goes on right after the searches were started (rotation, bulks into a fraction created after the start): a listed document submitted after the start must live in a fraction that existed at the start; second lane (every 3rd chunk): the proxy's StartAsyncSearch/FetchAsyncSearchResult fan-out over 1-3 shards x 1-2 replicas of real stores on simnet, stores killed / losing power / partitioned and restarted while the searches run and are polled: a response that says done without error must equal the model, and once every store is back the search must become done within one simulated hour; build variant tiny of the on-disk block constants in a third of the runs (token tables and every other index structure span many blocks)"+ntRule), "tiny", "lane:storesim:cluster-c19:3"),
 }
 
 type knownEntry struct {
